@@ -545,10 +545,15 @@ String Json::stripComments(const String& data)
           const char* end = String::findOneOf(src, "\r\n*");
           if (end)
           {
-            if (*end == '*' && end[1] == '/')
+            if (*end == '*')
             {
-              src = end + 2;
-              goto checkStr;
+              if (end[1] == '/')
+              {
+                src = end + 2;
+                goto checkStr;
+              }
+              src = end + 1;
+              continue;
             }
             *(dest++) = *(end++);
             src = end;
